@@ -30,7 +30,7 @@ ALLV = "fresh,reloaded,second,reloaded2,multi,multi,sharedctx,json"
 PLAN = {
     "C01": ([("pattern", 2, []), ("patternx", 1, []), ("core", 500, ["-variants", ALLV]), ("memo", 300, ["-variants", ALLV]), ("control", 120, [])],
             ["C01"], "a rule that was a candidate in the previous cycle is evaluated again after an action made its condition false"),
-    "C02": ([("pattern", 2, []), ("patternx", 1, []), ("core", 500, ["-variants", ALLV]), ("memo", 300, ["-variants", ALLV]), ("salience", 120, [])],
+    "C02": ([("pattern", 2, []), ("patternx", 1, []), ("patterne", 1, []), ("core", 500, ["-variants", ALLV]), ("memo", 300, ["-variants", ALLV]), ("salience", 120, [])],
             ["C02"], "a rule whose condition was false in the previous cycle is evaluated again after an action made it true"),
     "C03": ([("salience", 600, ["-reps", "3", "-variants", "fresh,json,multi"]), ("core", 150, []), ("control", 100, []), ("fault", 250, ["-flagp", "0.2", "-reps", "3"])],
             ["C03"], "a rule fired in a cycle whose recomputed conflict set held candidates of different salience"),
